@@ -164,6 +164,8 @@ DEFAULTS = {
     ("jax.random.choice", "replace"): ("kb", True),
     ("jax.random.choice", "shape"): ("tuple",),
     ("jax.random.randint", "dtype"): None,
+    ("jax.random.categorical", "axis"): ("k", -1),
+    ("jax.numpy.argmax", "axis"): None,
 }
 FLOAT_DTYPES = {("g", "float"), ("g", "jax.numpy.float32"), ("g", "jax.numpy.float64"), ("g", "jax.numpy.floating"),
                 ("k", "float32"), ("k", "float64"), ("k", "float")}
@@ -923,6 +925,14 @@ class Normalizer:
             for x in args[0][1]:
                 out = x if out == ("const", 1) else ("bin", "Mult", out, x)
             return self._poly(out)
+        if fname in ("tuple", "list") and len(args) == 1 and not kwargs:
+            # the materialised sequence of a comprehension is the comprehension (a list comprehension and a generator expression already
+            # denote one sequence of values), also when it is materialised more than once (tuple(tuple(gen)))
+            inner = args[0]
+            while isinstance(inner, tuple) and inner and inner[0] == "call" and inner[1] in (("global", "tuple"), ("global", "list")) and len(inner[2]) == 1 and not inner[3]:
+                inner = inner[2][0]
+            if isinstance(inner, tuple) and inner and inner[0] == "comp" and inner[1] in ("ListComp", "GeneratorExp"):
+                return self._poly(inner)
         if fname == "equinox.filter" and len(args) == 2 and not kw:
             # filter(tree, spec) is the first half of partition(tree, spec)
             return self._poly(("item", ("call", ("global", "equinox.partition"), tuple(args), ()), 0))
